@@ -153,13 +153,13 @@ class Exec:
     effect flags.  The result is a Gallina expression: the tuple
     (fields in `outs` order ..., [return value])."""
 
-    def __init__(self, tr, outs, effects, with_return, local_assign=None):
+    def __init__(self, tr, outs, effects, with_return, clock=False):
         self.tr = tr
         self.outs = outs              # atoms (assignable fields) and effect names, in output order
-        self.effects = effects        # {method name: effect flag name} for  self.<method>(...)
+        self.effects = effects        # {method name: (effect flag name, [gallina text of each argument])}
         self.with_return = with_return
         self.n = 0
-        self.local_assign = local_assign or {}
+        self.clock = clock            # `<local> = time.time()` binds the local to the parameter `now`
 
     def fresh(self, base):
         self.n += 1
@@ -204,6 +204,8 @@ class Exec:
                 self.tr.locals = dict(saved_loc)
                 b = self.run(list(s.orelse) + rest, dict(st))
                 return "(if %s then %s else %s)" % (t, a, b)
+            if isinstance(s, ast.AnnAssign) and s.value is not None and s.simple:
+                s = ast.Assign(targets=[s.target], value=s.value)
             if isinstance(s, ast.Assign) and len(s.targets) == 1:
                 tgt = s.targets[0]
                 f = self.tr.field(tgt)
@@ -217,24 +219,26 @@ class Exec:
                     st2 = dict(st)
                     st2[f[0]] = v
                     return "(let %s := %s in %s)" % (v, val, self.run(rest, st2))
-                if isinstance(tgt, ast.Name) and tgt.id in self.local_assign:
-                    kind = self.local_assign[tgt.id]
-                    if kind == "time":
-                        # now = time.time()
-                        c = s.value
-                        ok = (isinstance(c, ast.Call) and not c.args and isinstance(c.func, ast.Attribute)
-                              and c.func.attr == "time" and isinstance(c.func.value, ast.Name)
-                              and c.func.value.id == "time")
-                        if not ok:
-                            raise Unsupported("local %s is not time.time()" % tgt.id)
+                if isinstance(tgt, ast.Name):
+                    # a function-local name (whatever it is called): bound by `let`, so the
+                    # right-hand side is evaluated once, in the state at this point
+                    c = s.value
+                    is_clock = (isinstance(c, ast.Call) and not c.args and not c.keywords
+                                and isinstance(c.func, ast.Attribute) and c.func.attr == "time"
+                                and isinstance(c.func.value, ast.Name) and c.func.value.id == "time")
+                    if is_clock:
+                        if not self.clock:
+                            raise Unsupported("time.time() read here")
                         self.tr.locals[tgt.id] = ("now", "Z")
                         self.tr.atoms.add("now")
                         return self.run(rest, st)
-                    if kind == "Z":
-                        val = self.tr.num(s.value)
-                        v = self.fresh(tgt.id)
-                        self.tr.locals[tgt.id] = (v, "Z")
-                        return "(let %s := %s in %s)" % (v, val, self.run(rest, st))
+                    val, ty = self.tr.expr(s.value)
+                    if ty not in ("bool", "Z"):
+                        raise Unsupported("local %s bound to a container" % tgt.id)
+                    self.n += 1
+                    v = "loc_%d" % self.n
+                    self.tr.locals[tgt.id] = (v, ty)
+                    return "(let %s := %s in %s)" % (v, val, self.run(rest, st))
                 raise Unsupported("assignment %s" % ast.dump(tgt)[:60])
             if isinstance(s, ast.Expr) and isinstance(s.value, ast.Call):
                 c = s.value
@@ -242,7 +246,10 @@ class Exec:
                 if (isinstance(f, ast.Attribute) and isinstance(f.value, ast.Name) and f.value.id == "self"
                         and f.attr in self.effects and not c.keywords):
                     name, want_args = self.effects[f.attr]
-                    got = [a.id if isinstance(a, ast.Name) else None for a in c.args]
+                    try:
+                        got = [self.tr.expr(a)[0] for a in c.args]
+                    except Unsupported:
+                        got = None
                     if got != want_args:
                         raise Unsupported("call self.%s with arguments %r (expected %r)" % (f.attr, got, want_args))
                     st2 = dict(st)
@@ -343,7 +350,16 @@ def item_handle_write(trees):
     body = strip_doc(fn.body)
     if len(body) < 2:
         raise Unsupported("handle_write: unexpected shape")
-    # 1. the if/elif/else chain that selects `flush`
+    # 2. self._flush_exception(<local>)  -- read first: it names the local of step 1
+    c = body[1]
+    ok = (isinstance(c, ast.Expr) and isinstance(c.value, ast.Call) and isinstance(c.value.func, ast.Attribute)
+          and c.value.func.attr == "_flush_exception" and isinstance(c.value.func.value, ast.Name)
+          and c.value.func.value.id == "self" and len(c.value.args) == 1 and not c.value.keywords
+          and isinstance(c.value.args[0], ast.Name))
+    if not ok:
+        raise Unsupported("handle_write: second statement is not self._flush_exception(<local>)")
+    flush_var = c.value.args[0].id
+    # 1. the if/elif/else chain that selects the flush function
     FL = {"_flush_some": "FlushSome", "_flush_some_if_lockable": "FlushIfLockable"}
     tr = Tr({"self"})
 
@@ -356,7 +372,8 @@ def item_handle_write(trees):
                 raise Unsupported("handle_write: flush selection without else")
             t = tr.truthy(s.test)
             return "(if %s then %s else %s)" % (t, sel(s.body), sel(s.orelse))
-        if isinstance(s, ast.Assign) and len(s.targets) == 1 and isinstance(s.targets[0], ast.Name) and s.targets[0].id == "flush":
+        if (isinstance(s, ast.Assign) and len(s.targets) == 1 and isinstance(s.targets[0], ast.Name)
+                and s.targets[0].id == flush_var):
             v = s.value
             if isinstance(v, ast.Constant) and v.value is None:
                 return "FlushNone"
@@ -366,14 +383,6 @@ def item_handle_write(trees):
 
     flush = sel([body[0]])
     check_atoms(tr, SIG["gen_hw_flush"], "handle_write flush selection")
-    # 2. self._flush_exception(flush)
-    c = body[1]
-    ok = (isinstance(c, ast.Expr) and isinstance(c.value, ast.Call) and isinstance(c.value.func, ast.Attribute)
-          and c.value.func.attr == "_flush_exception" and isinstance(c.value.func.value, ast.Name)
-          and c.value.func.value.id == "self" and len(c.value.args) == 1 and not c.value.keywords
-          and isinstance(c.value.args[0], ast.Name) and c.value.args[0].id == "flush")
-    if not ok:
-        raise Unsupported("handle_write: second statement is not self._flush_exception(flush)")
     # 3. the tail: close_when_flushed -> will_close, will_close -> handle_close()
     tr2 = Tr({"self"})
     ex = Exec(tr2, ["close_when_flushed", "will_close", "closed"], {"handle_close": ("closed", [])}, False)
@@ -385,15 +394,19 @@ def item_handle_write(trees):
 
 def item_maintenance(trees):
     fn = find_method(trees["server"], "BaseWSGIServer", "maintenance")
-    if [a.arg for a in fn.args.args] != ["self", "now"]:
+    if len(fn.args.args) != 2 or fn.args.args[0].arg != "self" or fn.args.vararg or fn.args.kwarg or fn.args.kwonlyargs:
         raise Unsupported("maintenance: arguments")
+    now_var = fn.args.args[1].arg
     body = strip_doc(fn.body)
     if len(body) != 2:
         raise Unsupported("maintenance: expected `cutoff = ...` and one for loop")
     a, loop = body
-    if not (isinstance(a, ast.Assign) and len(a.targets) == 1 and isinstance(a.targets[0], ast.Name) and a.targets[0].id == "cutoff"):
-        raise Unsupported("maintenance: first statement is not cutoff = ...")
-    tr = Tr({"self"}, {"now": ("now", "Z")})
+    if isinstance(a, ast.AnnAssign) and a.value is not None and a.simple:
+        a = ast.Assign(targets=[a.target], value=a.value)
+    if not (isinstance(a, ast.Assign) and len(a.targets) == 1 and isinstance(a.targets[0], ast.Name)):
+        raise Unsupported("maintenance: first statement is not <local> = ...")
+    cutoff_var = a.targets[0].id
+    tr = Tr({"self"}, {now_var: ("now", "Z")})
     cutoff = tr.num(a.value)
     tr.atoms.add("now")
     check_atoms(tr, SIG["gen_maint_cutoff"], "maintenance cutoff")
@@ -416,7 +429,9 @@ def item_maintenance(trees):
           and s.targets[0].value.id == var and isinstance(s.value, ast.Constant) and s.value.value is True)
     if not ok:
         raise Unsupported("maintenance: if body is not `<c>.will_close = True`")
-    tr2 = Tr({var}, {"cutoff": ("cutoff", "Z")})
+    if var in (cutoff_var, now_var, "self"):
+        raise Unsupported("maintenance: loop variable shadows %s" % var)
+    tr2 = Tr({var}, {cutoff_var: ("cutoff", "Z")})
     test = tr2.truthy(cond.test)
     tr2.atoms.add("cutoff")
     check_atoms(tr2, SIG["gen_maint_test"], "maintenance test")
@@ -428,7 +443,7 @@ def item_srv_readable(trees):
     fn = find_method(trees["server"], "BaseWSGIServer", "readable")
     tr = Tr({"self"})
     ex = Exec(tr, ["next_channel_cleanup", "maint", "in_connection_overflow"], {"maintenance": ("maint", ["now"])},
-              True, local_assign={"now": "time"})
+              True, clock=True)
     body = ex.run(strip_doc(fn.body), {"next_channel_cleanup": "next_channel_cleanup", "maint": "false",
                                        "in_connection_overflow": "in_connection_overflow"})
     check_atoms(tr, SIG["gen_srv_readable"], "BaseWSGIServer.readable")
@@ -438,34 +453,45 @@ def item_srv_readable(trees):
 def item_poll(trees):
     fn = find_function(trees["wasyncore"], "poll")
     loops = [n for n in ast.walk(fn) if isinstance(n, ast.For) and isinstance(n.target, ast.Tuple)
-             and [getattr(e, "id", None) for e in n.target.elts] == ["fd", "obj"]]
+             and len(n.target.elts) == 2 and all(isinstance(e, ast.Name) for e in n.target.elts)]
     if len(loops) != 1:
-        raise Unsupported("poll: %d loops over (fd, obj)" % len(loops))
+        raise Unsupported("poll: %d loops over a pair" % len(loops))
+    fd_var, obj_var = [e.id for e in loops[0].target.elts]
+    # the three lists, by their position in select.select(r, w, e, timeout)
+    sels = [n for n in ast.walk(fn) if isinstance(n, ast.Call) and isinstance(n.func, ast.Attribute)
+            and n.func.attr == "select" and isinstance(n.func.value, ast.Name) and n.func.value.id == "select"]
+    if len(sels) != 1 or len(sels[0].args) != 4 or not all(isinstance(a, ast.Name) for a in sels[0].args[:3]):
+        raise Unsupported("poll: select.select(r, w, e, timeout) not found")
+    lists = dict(zip([a.id for a in sels[0].args[:3]], ("r", "w", "e")))
+    if len(lists) != 3:
+        raise Unsupported("poll: select lists are not three distinct locals")
     body = loops[0].body
     if len(body) < 2:
         raise Unsupported("poll: loop body")
 
-    def is_call_assign(s, var, meth):
-        return (isinstance(s, ast.Assign) and len(s.targets) == 1 and isinstance(s.targets[0], ast.Name)
-                and s.targets[0].id == var and isinstance(s.value, ast.Call) and not s.value.args
-                and isinstance(s.value.func, ast.Attribute) and s.value.func.attr == meth
-                and isinstance(s.value.func.value, ast.Name) and s.value.func.value.id == "obj")
+    def call_assign(s, meth):
+        ok = (isinstance(s, ast.Assign) and len(s.targets) == 1 and isinstance(s.targets[0], ast.Name)
+              and isinstance(s.value, ast.Call) and not s.value.args and not s.value.keywords
+              and isinstance(s.value.func, ast.Attribute) and s.value.func.attr == meth
+              and isinstance(s.value.func.value, ast.Name) and s.value.func.value.id == obj_var)
+        return s.targets[0].id if ok else None
 
-    if not (is_call_assign(body[0], "is_r", "readable") and is_call_assign(body[1], "is_w", "writable")):
-        raise Unsupported("poll: loop does not start with is_r = obj.readable(); is_w = obj.writable()")
+    r_var, w_var = call_assign(body[0], "readable"), call_assign(body[1], "writable")
+    if r_var is None or w_var is None or r_var == w_var:
+        raise Unsupported("poll: loop does not start with <a> = obj.readable(); <b> = obj.writable()")
     tests = {}
     for s in body[2:]:
         ok = (isinstance(s, ast.If) and not s.orelse and len(s.body) == 1 and isinstance(s.body[0], ast.Expr)
               and isinstance(s.body[0].value, ast.Call) and isinstance(s.body[0].value.func, ast.Attribute)
               and s.body[0].value.func.attr == "append" and isinstance(s.body[0].value.func.value, ast.Name)
-              and s.body[0].value.func.value.id in ("r", "w", "e")
-              and [getattr(a, "id", None) for a in s.body[0].value.args] == ["fd"])
+              and s.body[0].value.func.value.id in lists
+              and [getattr(a, "id", None) for a in s.body[0].value.args] == [fd_var])
         if not ok:
             raise Unsupported("poll: loop statement %s" % ast.dump(s)[:60])
-        which = s.body[0].value.func.value.id
+        which = lists[s.body[0].value.func.value.id]
         if which in tests:
             raise Unsupported("poll: two appends to %s" % which)
-        tr = Tr({"obj"}, {"is_r": ("is_r", "bool"), "is_w": ("is_w", "bool")})
+        tr = Tr({obj_var}, {r_var: ("is_r", "bool"), w_var: ("is_w", "bool")})
         tests[which] = tr.truthy(s.test)
         check_atoms(tr, SIG["gen_poll_r"], "poll " + which)
     out = []
